@@ -347,17 +347,21 @@ def three_clauses(sigbase, ref, canonical, parse_ok, produce, parse, expected, r
     except LibError as e:
         fails.append(exc_fail(sigbase, 'parse', e))
         return fails
-    for p in problems:
-        fails.append(('%s:parse:%s' % (sigbase, p[0]), p[1], p[2]))
-    fails += compare_leaves(data, expected, sigbase)
-    if canonical and regen is not None:
+    parse_fails = [('%s:parse:%s' % (sigbase, p[0]), p[1], p[2]) for p in problems]
+    parse_fails += compare_leaves(data, expected, sigbase)
+    if canonical and regen is not None and not parse_fails:     # a mis-parsed message cannot be expected to regenerate
+        produced = [f[1] for f in fails]
         try:
             out = guarded(regen, data)
             if bytes(out) != ref:
-                fails.append(bytes_fail(sigbase + ':regen:bytes', out, ref))
+                f = bytes_fail(sigbase + ':regen:bytes', out, ref)
+                if f[1] not in produced:        # same wrong bytes as clause 1: one root cause, one signature
+                    fails.append(f)
         except LibError as e:
-            fails.append(exc_fail(sigbase, 'regen', e))
-    return fails
+            f = exc_fail(sigbase, 'regen', e)
+            if f[1] not in produced:
+                fails.append(f)
+    return fails + parse_fails
 
 
 def run_checked(mach, ref, data=None, path=None, what='machine'):
@@ -447,6 +451,18 @@ def check_typed(t, opts, ctx):
         return P.typed_data.produce(dict.__getitem__(data, 'typed_data'), tag_type=code)
 
     return three_clauses(sigbase, ref, canonical, True, produce, parse, expected, regen)
+
+
+def check_iface(m, opts, ctx):
+    P = lib()['parser']
+    ref = rf.enc_ifaceaddrs(m)
+    expected = [('IFACEADDRS.' + k, m[k]) for k in rf.IFACE_KEYS + ('domain_name',)]
+
+    def parse():
+        return run_checked(machine('iface', lambda: P.IFACEADDRS(terminal=True)), ref, what='IFACEADDRS')
+
+    return three_clauses('iface', ref, True, True, lambda: P.IFACEADDRS.produce(D(dict(m))), parse, expected,
+                         lambda data: P.IFACEADDRS.produce(dict.__getitem__(data, 'IFACEADDRS')))
 
 
 # ------------------------------------------------------------------------------------------------
@@ -564,7 +580,10 @@ def check_wrapper(w, opts, ctx):
         return P.unconnected_send.produce(d['unconnected_send'])
 
     def parse():
-        data, problems = run_checked(machine('usend', lambda: P.unconnected_send(terminal=True)), ref, what='unconnected_send')
+        # the machine reads the enclosing CPF item's .length (is_uerr): supply it as the item parser would
+        data = D({'length': len(ref)})
+        data, problems = run_checked(machine('usend', lambda: P.unconnected_send(terminal=True)), ref, data=data,
+                                     what='unconnected_send')
         problems += parse_item_requests([data], fake)
         return data, problems
 
@@ -656,7 +675,7 @@ def check_frame(f, opts, ctx):
 # ------------------------------------------------------------------------------------------------
 # node dispatch and localisation
 
-CHECKS = {'epath': check_epath, 'status': check_status, 'typed': check_typed, 'mr': check_mr,
+CHECKS = {'iface': check_iface, 'epath': check_epath, 'status': check_status, 'typed': check_typed, 'mr': check_mr,
           'wrapper': check_wrapper, 'cpf': check_cpf, 'frame': check_frame}
 
 
